@@ -101,6 +101,10 @@ func bulkOrNull(v []byte) []byte {
 
 // ValueReply is the deterministic default reply of the fake cluster.
 func ValueReply(r *BReq) []byte {
+	if len(r.Args) < 2 {
+		// a command without arguments should never have been forwarded; answer like Redis would
+		return ErrReply("ERR wrong number of arguments for '" + r.Cmd + "' command")
+	}
 	switch r.Cmd {
 	case "get":
 		return bulkOrNull(ValueOf(r.Args[1]))
